@@ -16,7 +16,7 @@ from explore import expect, conc, Violation
 
 PROPERTY = 'C13'
 HELPERS = os.path.join(hsupport.VERIF, 'helpers/bin')
-BUDGET = {'quick': 900, 'thorough': 3000}
+BUDGET = {'quick': 900, 'thorough': 1500}
 BOUNDS = {'quick': dict(val_len=3), 'thorough': dict(val_len=4)}
 ASSUMPTIONS = [
     'bounded: produced text of 1..val_len characters; characters are arbitrary scalars except NUL/newline and except the characters that legitimately trigger a *later expansion* of unquoted text (* ? [ ] { } ~ $ ` \\ and quotes) - the property is about operators (| & ; < > # and digits before them), which are all included',
